@@ -21,6 +21,7 @@ func plans(quick bool) []netsim.CrashPlan {
 		{Name: "flush-1v-late-txs", N: 1, Victim: 0, Flush: true, Heights: 3, Late: true, WithTxs: true},
 		{Name: "flush-4v-victim3-rotate", N: 4, Victim: 3, Flush: true, Heights: 4, Rotate: 1200},
 		{Name: "flush-1v-second-txs", N: 1, Victim: 0, Flush: true, Heights: 3, Second: true, WithTxs: true},
+		{Name: "flush-4v-victim1-valchange", N: 4, Victim: 1, Flush: true, Heights: 5, ValChange: true},
 	}
 	if quick {
 		return ps
@@ -41,6 +42,8 @@ func plans(quick bool) []netsim.CrashPlan {
 		// the victim is the round-1 proposer of an even height for one v, the round-2 proposer for another
 		ps = append(ps, netsim.CrashPlan{Name: fmt.Sprintf("flush-4v-victim%d-round2-txs", v), N: 4, Victim: v, Flush: true, Heights: 4, Round2: true, WithTxs: true, Late: v%2 == 1})
 	}
+	ps = append(ps, netsim.CrashPlan{Name: "flush-4v-victim3-valchange-late-txs", N: 4, Victim: 3, Flush: true, Heights: 6, ValChange: true, Late: true, WithTxs: true})
+	ps = append(ps, netsim.CrashPlan{Name: "cache-4v-victim0-valchange", N: 4, Victim: 0, Flush: false, Heights: 6, ValChange: true})
 	ps = append(ps, netsim.CrashPlan{Name: "cache-4v-victim2-round2", N: 4, Victim: 2, Flush: false, Heights: 4, Round2: true})
 	for v := 0; v < 4; v += 2 {
 		ps = append(ps, netsim.CrashPlan{Name: fmt.Sprintf("flush-4v-victim%d-second-txs", v), N: 4, Victim: v, Flush: true, Heights: 4, Second: true, WithTxs: true})
